@@ -32,6 +32,10 @@ def run_server(prop, mode, tier, seed, replay, rule, nontrivial):
             q = fl["q"]
             if cl.startswith("tilesjson"):
                 continue      # the served tiles.json is judged for C17 (checks/c17.py runs the same stage)
+            if cl == "dropped_connection" and prop == "C07":
+                # C07 is about WHAT is served; a connection that is dropped serves nothing (complete responses are C05's clause)
+                run.observation("dropped_connection", {"target": fl["target"]})
+                continue
             if cl == "plain_inside_not_served":
                 # not a clause of C07 (a server that serves nothing leaves no root either) but the check would be vacuous:
                 # reported as an observation
